@@ -21,6 +21,34 @@ VERSIONS = ['2.0', '1.0', '1.1', '2.1', '3.0', 'two', '', '2', '2.00', '02.0', '
 PAYLOAD = ['none', 'assertion-signed', 'both-signed']
 
 
+DETAILS = {
+    'detail-empty': '<samlp:StatusDetail/>',
+    'detail-text-child': '<samlp:StatusDetail><x:Cause xmlns:x="urn:vp:x">account locked</x:Cause></samlp:StatusDetail>',
+    'detail-childless-child': '<samlp:StatusDetail><x:Cause xmlns:x="urn:vp:x" code="17"/></samlp:StatusDetail>',
+    'detail-nested': '<samlp:StatusDetail><x:Cause xmlns:x="urn:vp:x"><x:Code>17</x:Code><x:Hint/></x:Cause><x:More xmlns:x="urn:vp:x">m</x:More></samlp:StatusDetail>',
+    'detail-saml-child': '<samlp:StatusDetail><samlp:StatusCode Value="%sSuccess"/></samlp:StatusDetail>' % ST,
+}
+XVARS = ['q-version-after', 'q-version-before', 'q-value-after', 'q-value-before'] + sorted(DETAILS)
+
+
+def xvariant(xml, var, ver):
+    if var.startswith('q-version'):
+        real = ' Version="%s"' % ver
+        assert xml.count('<samlp:Response') == 1 and real in xml.split('>', 1)[0]
+        head, rest = xml.split('>', 1)
+        fake = ' samlp:Version="2.0"'
+        head = head.replace(real, real + fake if var.endswith('after') else fake + real, 1)
+        return head + '>' + rest
+    if var.startswith('q-value'):
+        i = xml.index('<samlp:StatusCode Value="')
+        j = xml.index('"', i + len('<samlp:StatusCode Value="')) + 1
+        real = xml[i + len('<samlp:StatusCode'):j]
+        fake = ' samlp:Value="%sSuccess"' % ST
+        return xml[:i] + '<samlp:StatusCode' + (real + fake if var.endswith('after') else fake + real) + xml[j:]
+    assert xml.count('</samlp:Status>') == 1
+    return xml.replace('</samlp:Status>', DETAILS[var] + '</samlp:Status>')
+
+
 def sp():
     if 'sp' not in _c:
         _c['sp'] = world.make_sp(TMP[0], want_response_signed=False)
@@ -66,6 +94,20 @@ def cells(thorough):
                 out.append(('reuse', clear, top, sec, pay, '2.0'))
         for v in ('1.0', '2.1', None):
             out.append(('reuse', clear, 'Success', None, 'assertion-signed', v))
+    # string-level variants of the (unsigned) envelope: a namespace-qualified look-alike of Version / Value next to the
+    # real attribute (two different attributes for XML), and StatusDetail elements of several shapes
+    for var in XVARS:
+        for pay in PAYLOAD[:2]:
+            if var.startswith('q-version'):
+                for v in ('1.0', '1.1', '2.1', 'two'):
+                    out.append(('respx', 'Success', None, var, pay, v))
+            elif var.startswith('q-value'):
+                for top, sec in (('Responder', None), ('Requester', 'AuthnFailed'), ('Responder', 'NoPassive'), ('urn:vp:unknown-status', None)):
+                    out.append(('respx', top, sec, var, pay, '2.0'))
+            else:
+                for top, sec in (('Responder', None), ('Responder', 'AuthnFailed'), ('Requester', 'NoPassive'), ('Requester', 'RequestDenied'),
+                                 ('Responder', 'urn:vp:unknown-second'), ('Success', None)):
+                    out.append(('respx', top, sec, var, pay, '2.0'))
     for kind, binding in (('AuthnRequest', 'redirect'), ('AuthnRequest', 'post'), ('LogoutRequest', 'soap'), ('AttributeQuery', 'soap')):
         for v in VERSIONS:
             out.append(('req', kind, binding, v))
@@ -110,6 +152,11 @@ def evaluate(cell):
         soap = len(cell) > 6 and cell[6] == 'soap'
         xml = document(top, sec, msg, pay, ver, third=cell[7] if len(cell) > 7 else None)
         obs = oracle.accept_response(sp(), xml, binding=BINDING_SOAP) if soap else oracle.accept_response(sp(), xml)
+        return {'accept': obs['accept'], 'exc': obs.get('exc')}
+    if cell[0] == 'respx':
+        _k, top, sec, var, pay, ver = cell
+        xml = xvariant(document(top, sec, False, pay, ver), var, ver)
+        obs = oracle.accept_response(sp(), xml)
         return {'accept': obs['accept'], 'exc': obs.get('exc')}
     if cell[0] == 'reuse':
         from saml2_tophat import response as s2response
@@ -162,6 +209,8 @@ def judge(cell, r):
             return 'reused-handler:second-response-with-%s-accepted' % ('version-%r' % ver if ver != '2.0' else 'non-success-status')
         return None
     _k, top, sec, msg, pay, ver = cell[:6]
+    if cell[0] == 'respx' and top == 'Success' and ver == '2.0' and pay != 'none' and not r['accept']:
+        return 'success-response-with-status-detail-rejected:%s' % r['exc']
     if ver != '2.0':
         return 'response-with-version-%r-accepted' % ver if r['accept'] else None
     if top == 'Success':
@@ -202,6 +251,8 @@ def run(ctx):
         if y:
             if c[0] == 'reuse':
                 key = {'kind': y, 'clear_between': c[1], 'top': c[2], 'second': c[3], 'payload': c[4], 'version': c[5]}
+            elif c[0] == 'respx':
+                key = {'kind': y.split(':')[0], 'top': c[1], 'second': c[2], 'variant': c[3], 'payload': c[4], 'version': c[5]}
             elif c[0] == 'resp':
                 key = {'kind': y.split(':')[0], 'top': c[1], 'second': c[2], 'message': c[3], 'payload': c[4], 'version': c[5],
                        'via': c[6] if len(c) > 6 else 'post', 'third': c[7] if len(c) > 7 else None}
@@ -214,7 +265,7 @@ def run(ctx):
         'level': 'exploration',
         'coverage': {
             'evaluations': len(cs), 'distinct_nontrivial': len(nontriv), 'exhaustive': True, 'accepted': acc,
-            'rule': 'complete product: top-level status (Success, Requester, Responder, VersionMismatch, unknown, StatusCode absent, Status absent) x second-level (absent, each of the 21 standard codes, unknown) x StatusMessage x payload (none / signed assertion / signed response+assertion), top-level values also with 7 near-misses of the Success URN (prefix, shorter, suffix, bare word, longer, other case, empty); the status x payload grid also over the SOAP binding; three-level status codes (class decided by the second level); one response handler consuming a genuine response and then a non-Success / non-2.0 one (with and without clear()); Version {2.0,1.0,1.1,2.1,3.0,two,empty,near-2.0 spellings,attribute absent} on responses and on AuthnRequest (Redirect, POST; reply endpoint by URL and by index) / LogoutRequest / AttributeQuery (SOAP); non-trivial = non-Success status or non-2.0 version or a request',
+            'rule': 'complete product: top-level status (Success, Requester, Responder, VersionMismatch, unknown, StatusCode absent, Status absent) x second-level (absent, each of the 21 standard codes, unknown) x StatusMessage x payload (none / signed assertion / signed response+assertion), top-level values also with 7 near-misses of the Success URN (prefix, shorter, suffix, bare word, longer, other case, empty); the status x payload grid also over the SOAP binding; three-level status codes (class decided by the second level); namespace-qualified look-alikes of Version and of the top-level Value next to the real attribute (either order) and five StatusDetail shapes (empty, text child, childless child, nested, a Success StatusCode inside) with the same verdict and error class required; one response handler consuming a genuine response and then a non-Success / non-2.0 one (with and without clear()); Version {2.0,1.0,1.1,2.1,3.0,two,empty,near-2.0 spellings,attribute absent} on responses and on AuthnRequest (Redirect, POST; reply endpoint by URL and by index) / LogoutRequest / AttributeQuery (SOAP); non-trivial = non-Success status or non-2.0 version or a request',
             'samples': [{'cell': list(cs[i]), 'observed': res[i]} for i in (1, len(cs) // 2, len(cs) - 1)],
             'distinct_outcomes': len(hist), 'outcome_histogram': hist,
         },
@@ -225,7 +276,9 @@ def run(ctx):
 
 def replay(ctx, w):
     TMP[0] = ctx.tmp
-    if 'clear_between' in w:
+    if 'variant' in w:
+        c = ('respx', w['top'], w['second'], w['variant'], w['payload'], w['version'])
+    elif 'clear_between' in w:
         c = ('reuse', w['clear_between'], w['top'], w['second'], w['payload'], w['version'])
     elif 'request' in w:
         c = ('req', w['request'], w['binding'], w['version']) + (('index',) if w.get('by_index') else ())
